@@ -94,6 +94,13 @@ Definition prod_range : producer (nat * nat) nat :=
     (fun p => seq (fst p) (snd p - fst p))
     (fun p => snd p - fst p).
 
+(* rayon's own producer for a Vec / slice (`vec.into_par_iter()`, rayon code, trusted): split_at(k) cuts the slice in two *)
+Definition prod_list {A} : producer (list A) A :=
+  mk_producer _ _
+    (fun l k => if (k <=? length l)%nat then Ok (firstn k l, skipn k l) else Panic)
+    (fun l => l)
+    (fun l => length l).
+
 (* an index range as the code writes it: (lo, hi, inclusive) *)
 Definition range_count (r : nat * nat * bool) : nat :=
   let '(lo, hi, incl) := r in if incl then S hi - lo else hi - lo.
